@@ -500,7 +500,7 @@ pub fn sign_post_policy(secret: &str, scope: &Scope, policy_b64: &str) -> String
 pub const V2_SUBRESOURCES: &[&str] = &[
     "acl", "delete", "lifecycle", "location", "logging", "notification", "partNumber", "policy", "requestPayment",
     "response-cache-control", "response-content-disposition", "response-content-encoding", "response-content-language",
-    "response-content-type", "response-expires", "torrent", "uploadId", "uploads", "versionId", "versioning", "versions", "website",
+    "response-content-type", "response-expires", "uploadId", "uploads", "versionId", "versioning", "versions", "website",
 ];
 
 /// V2 StringToSign. `date_line` is the Date header value (header auth; empty when x-amz-date is
